@@ -13,10 +13,18 @@ Monitors (all decide on bytes produced by the real library):
   library reader OscMessage / OscBundle / OscPacket applied to the same bytes
                  must give the same address, parameters and timetags.
   size           NetAddr._calc_msg_dgram_size/_calc_bndl_dgram_size >= len(dgram).
-  clump          datagrams handed to `_send` by send_clumped_bundles and by
-                 sync(elements=...) (replies fed back through _handle_request):
-                 each <= 65507 bytes, concatenation of their elements ==
-                 input elements (unique ids), in order, exactly once.
+  clump          datagrams handed to `_send` by send_clumped_bundles, by the
+                 flush of a BundleNetAddr block and by sync(elements=...)
+                 (replies fed back through _handle_request): each <= 65507
+                 bytes, concatenation of their elements over the datagrams in
+                 send order == the elements the caller gave (deep copy taken
+                 before the call, unique ids), exactly once, plus exactly one
+                 fresh trailing /sync per sync datagram.  Histories re-use
+                 the same list object for 2-4 sends (sync / clumped / plain
+                 bundle / BundleNetAddr): no stale elements, caller's list
+                 unchanged.  Family 'big-among-small' puts an element >= the
+                 clump size (8192 / 65468) after, between or behind small
+                 ones.
   d_recv route   SynthDef._do_send: when /d_recv is chosen the datagram fits.
 """
 
@@ -32,9 +40,10 @@ RULE = ("seeded random OSC lists: addresses over printable ASCII, 0-10 "
         "nested to depth 5 with None / negative / equal / increasing / "
         "decreasing latencies; element lists whose predicted size straddles "
         "8192, 65468 and 65504 bytes (tiny, mixed, huge, nested, unaligned "
-        "elements).  A case is non-trivial when the packet was accepted and "
+        "elements, one element >= the clump size among small ones, the same "
+        "list object sent 2-4 times).  A case is non-trivial when the packet was accepted and "
         "contains an unaligned blob, a non-ASCII string, a nested packet, an "
-        "array, a coerced value or (clumping) was split into >= 2 datagrams; "
+        "array, a coerced value or (clumping) was split into >= 2 datagrams or re-used a list; "
         "distinct = hash of the input list")
 ASSUMPTIONS = [
     "vf/osc.py (strict OSC 1.0 reader written from the specification, "
@@ -57,6 +66,9 @@ MIN_COUNTERS = {
     'clump_cases_checked': 30,
     'clump_cases_split': 15,
     'clump_elements_conserved': 10000,
+    'clump_reuse_steps_checked': 40,
+    'clump_family/big-among-small': 15,
+    'clump_cases_bundlenetaddr': 10,
     'drecv_routes_checked': 20,
 }
 
@@ -530,16 +542,84 @@ def run_sync(cx, latency, elements, timeout=20.0):
     return ok, (err[0] if err else None)
 
 
+def gen_big_among_small(rng, M, clump_size, oversize_total):
+    """Element list for an oversized bundle in which ONE (sometimes two)
+    element is by itself at least as large as the clump size and is preceded
+    by smaller elements that have not filled a clump yet: big 2nd..7th, big
+    somewhere in the middle, big last.  Message ['/e', id, blob(n)] has size
+    16 + n for n % 4 == 0; it cannot share a clump when 16 + 4 + size >=
+    clump_size and can be sent alone (with a /sync) when size + 40 <= 65507."""
+    lo = clump_size - 20                       # smallest such message size
+    hi = min(M.UDP_MAX - 40, max(lo, 30000 if clump_size < 20000 else lo + 16))
+    hi -= hi % 4
+
+    def big():
+        size = rng.choice([lo, lo, lo + 4, rng.randrange(lo, hi + 1, 4), hi])
+        return ['/e', 0, rng.randbytes(size - 16)], size
+    bigs = [big() for _ in range(rng.choice([1, 1, 1, 2]))]
+    need = max(rng.randint(60, 6000),
+               oversize_total - sum(sz + 4 for _, sz in bigs))
+    base = []
+    total = 0
+    hint = rng.choice([3, 6, 9, 9, 11])
+    while total < need:
+        e = ['/e', 0] + gen_payload(rng, M, rng.choice(['tiny', 'mixed']), hint)
+        size = M.size_of(M.expect_msg(e, lambda L: None))
+        if size + 20 >= clump_size:
+            continue
+        base.append(e)
+        total += 4 + size
+    for e, _ in bigs:
+        where = rng.choice(['early', 'early', 'middle', 'last'])
+        if where == 'early':
+            pos = rng.randint(1, min(7, len(base)))
+        elif where == 'middle':
+            pos = rng.randint(1, len(base))
+        else:
+            pos = len(base)
+        base.insert(pos, e)
+    for k, e in enumerate(base):
+        e[1] = k
+    return base
+
+
+def send_via(cx, via, latency, elements):
+    """One public send of `elements`; -> (finished, exception | None)."""
+    from sc3.base.netaddr import BundleNetAddr
+    try:
+        if via == 'sync':
+            return run_sync(cx, latency, elements)
+        del cx.captured[:]
+        if via == 'clumped':
+            cx.addr.send_clumped_bundles(latency, *elements)
+        elif via == 'bundle':
+            cx.addr.send_bundle(latency, *elements)
+        else:                       # the flush of a BundleNetAddr block
+            with BundleNetAddr(cx.addr) as b:
+                for e in elements:
+                    if isinstance(e[0], str):
+                        b.send_msg(*e)
+                    else:
+                        b.send_bundle(None, e)
+        return True, None
+    except Exception as e:
+        return True, e
+
+
 def run_clump(spec, acc):
+    import copy
     cx = Ctx(spec, acc)
     M, osc = cx.M, cx.osc
     LIM = cx.addr._MAX_UDP_DGRAM_SIZE
     for i in iter_cases(spec):
         rng = case_rng(spec['seed'], 'C06', 'clump', i)
-        via = rng.choice(['clumped', 'clumped', 'sync', 'sync', 'sync'])
+        via = rng.choice(['clumped', 'clumped', 'sync', 'sync', 'sync',
+                          'bundlenetaddr'])
         family = rng.choice(['tiny', 'tiny', 'mixed', 'mixed', 'huge', 'under',
-                             'nested', 'mixed+tiny', 'few', 'few'])
-        limit = LIM if via == 'clumped' else LIM - 36
+                             'nested', 'mixed+tiny', 'few', 'few',
+                             'big-among-small', 'big-among-small', 'reuse',
+                             'reuse', 'reuse'])
+        limit = LIM - 36 if via == 'sync' else LIM
         k = rng.random()
         if k < 0.25:
             target = limit + rng.randint(-40, 40)
@@ -551,129 +631,199 @@ def run_clump(spec, acc):
             target = int(limit * rng.uniform(1.05, 3.2))
         if family == 'few':       # the boundary itself, 4 bytes at a time
             target = rng.randint(65400, 65540)
-        elements = gen_elements(rng, M, family, target)
+        ops = [via]
+        if family == 'big-among-small':
+            elements = gen_big_among_small(
+                rng, M, LIM - 36 if via == 'sync' else 8192,
+                int(LIM * rng.uniform(1.02, 1.6)))
+        elif family == 'reuse':
+            # the same list object goes through several sends
+            target = rng.choice([rng.randint(60, 3000), rng.randint(60, 30000),
+                                 rng.randint(60, 30000), target])
+            elements = gen_elements(rng, M, rng.choice(
+                ['tiny', 'mixed', 'mixed', 'nested', 'under']), target)
+            ops = [rng.choice(['sync', 'sync', 'sync', 'clumped', 'bundle',
+                               'bundlenetaddr'])
+                   for _ in range(rng.randint(2, 4))]
+            if 'sync' not in ops:
+                ops[0] = 'sync'
+        else:
+            elements = gen_elements(rng, M, family, target)
         latency = rng.choice([None, 0, 0.2, 0.2, 1.5])
+        original = copy.deepcopy(elements)
         exp_elems = [(M.expect_msg if isinstance(e[0], str) else M.expect_bundle)(
-            e, lambda L: None) for e in elements]
-        before = repr(elements)
-        try:
-            if via == 'clumped':
-                del cx.captured[:]
-                cx.addr.send_clumped_bundles(latency, *elements)
-                ok, err = True, None
-            else:
-                ok, err = run_sync(cx, latency, elements)
-        except Exception as e:
-            ok, err = True, e
-        if not ok:
-            # a stuck routine could still send later: stop this shard
-            acc.mark_inconclusive(f'sync routine did not finish (case {i})')
-            return
-        if err is not None:
-            acc.count(f'clump_refused/{_exc_key(err)}')
+            e, lambda L: None) for e in original]
+        before = M.srepr(original)
+        sync_ids = set()
+        total_dgrams = 0
+        checked = True
+        for step, op in enumerate(ops):
+            ok, err = send_via(cx, op, None if op == 'bundlenetaddr' else latency,
+                               elements)
+            if not ok:
+                # a stuck routine could still send later: stop this shard
+                acc.mark_inconclusive(f'sync routine did not finish (case {i})')
+                return
+            if err is not None:
+                acc.count(f'clump_refused/{_exc_key(err)}')
+                checked = False
+                break
+            dgrams = list(cx.captured)
+            total_dgrams = max(total_dgrams, len(dgrams))
+            res = check_clump_op(cx, i, op, family, step, ops, elements, original,
+                                 exp_elems, dgrams, sync_ids)
+            # the caller's list is the caller's: it must come back as given
+            if M.srepr(elements) != before:
+                acc.violation(
+                    'C06/sync/caller-list-mutated' if op == 'sync' else
+                    'C06/clump/caller-list-mutated',
+                    {'case': i, 'via': op, 'family': family, 'step': step,
+                     'history': ops, 'given_elements': len(original),
+                     'elements_after_call': len(elements),
+                     'appended': M.srepr(elements[len(original):])[:300]})
+                checked = False
+                before = M.srepr(elements)   # report once; the history goes
+                # on with the list as the library left it: what later sends
+                # carry is judged against the caller's original elements
+            if not res:
+                checked = False
+                break
+            acc.count('clump_ops_checked')
+            if step:
+                acc.count('clump_reuse_steps_checked')
+        if not checked:
             continue
-        dgrams = list(cx.captured)
         acc.count('clump_cases_checked')
-        acc.count(f'clump_cases_{via}')
+        acc.count(f'clump_cases_{via}' if family != 'reuse' else 'clump_cases_reuse')
         acc.count(f'clump_family/{family}')
-        acc.count('clump_datagrams', len(dgrams))
-        acc.maxi('max_clump_datagrams_per_case', len(dgrams))
-        if len(dgrams) > 1:
+        if total_dgrams > 1:
             acc.count('clump_cases_split')
-        got = []       # decoded top level elements in order
-        bad = False
-        for k, raw in enumerate(dgrams):
-            try:
-                d = osc.decode(raw)
-            except osc.OscError as e:
-                acc.violation(f'C06/clump/nonconformant-datagram/{M._slug(str(e))}',
-                              {'case': i, 'via': via, 'family': family,
-                               'error': str(e), 'dgram': raw[:200]})
-                bad = True
-                continue
-            if not isinstance(d, osc.Bundle):
-                acc.violation('C06/clump/datagram-is-not-a-bundle',
-                              {'case': i, 'via': via})
-                bad = True
-                continue
-            els = list(d.elements)
-            if via == 'sync':
-                if not els or not isinstance(els[-1], osc.Msg) or \
-                        els[-1].addr != '/sync':
-                    acc.violation('C06/clump/sync-datagram-without-trailing-sync',
-                                  {'case': i, 'datagram_index': k})
-                    bad = True
-                else:
-                    els.pop()
-            if not els:
-                acc.count('clump_empty_datagrams')
-            lo = len(got)
-            got.extend(els)
-            if len(raw) > M.UDP_MAX:
-                part = exp_elems[lo:lo + len(els)]
-                plists = elements[lo:lo + len(els)]
-                cause, under = oversize_cause(cx, M, plists, part, len(raw))
-                if cause == 'element-prefix-not-counted' and len(dgrams) == 1 \
-                        and 4 * len(els) + under < len(raw) - M.UDP_MAX:
-                    # nothing was split although the whole does not fit, and
-                    # neither the element prefixes nor under-predicted
-                    # element sizes can account for the excess
-                    cause = 'bundle-not-split'
-                w = {'case': i, 'via': via, 'family': family,
-                     'datagram_index': k, 'bytes': len(raw),
-                     'elements_in_datagram': len(els),
-                     'first_elements': repr(plists[:3])[:300]}
-                if cause == 'element-size-underpredicted':
-                    # same defect as the size monitor's: same keys
-                    causes = {}
-                    for e in plists:
-                        for c, n in active_causes(cx, M, e, predict(cx, e)).items():
-                            causes[c] = causes.get(c, 0) + n
-                    w['where'] = 'clumped datagram above 65507'
-                    w['bytes_attributed'] = causes
-                    for c in causes:
-                        acc.violation(f'C06/size-underpredicted/{c}', w)
-                    if under > sum(causes.values()):
-                        acc.violation('C06/size-underpredicted/other', w)
-                else:
-                    acc.violation(
-                        f'C06/clump/datagram-exceeds-udp-limit/{cause}', w)
-            acc.maxi('max_clump_datagram_bytes', len(raw))
-        if bad:
+        acc.case(h64((before, tuple(ops))),
+                 nontrivial=total_dgrams > 1 or len(ops) > 1)
+
+
+def check_clump_op(cx, i, via, family, step, ops, elements, original, exp_elems,
+                   dgrams, sync_ids):
+    """Datagrams of one send of `original` (the caller's elements as given):
+    conformance, UDP limit, exactly one fresh trailing /sync per datagram for
+    sync, and concatenation of the decoded elements over the datagrams in send
+    order == the given elements.  -> False when a violation ended the case."""
+    acc, M, osc = cx.acc, cx.M, cx.osc
+    acc.count('clump_datagrams', len(dgrams))
+    acc.maxi('max_clump_datagrams_per_case', len(dgrams))
+    winfo = {'case': i, 'via': via, 'family': family, 'step': step,
+             'history': ops}
+    if via == 'bundle' and len(dgrams) != 1:
+        acc.violation(f'C06/send-bundle-handed-{len(dgrams)}-datagrams', winfo)
+        return False
+    got = []       # decoded top level elements in order
+    bounds = []    # index in `got` where each datagram starts
+    bad = False
+    for k, raw in enumerate(dgrams):
+        try:
+            d = osc.decode(raw)
+        except osc.OscError as e:
+            acc.violation(f'C06/clump/nonconformant-datagram/{M._slug(str(e))}',
+                          dict(winfo, error=str(e), dgram=raw[:200]))
+            bad = True
             continue
-        # conservation: every element exactly once, in order
-        want_ids = flat_ids(exp_elems)
-        got_ids = dec_ids(osc, got)
-        if got_ids != want_ids:
-            ws, gs = set(want_ids), set(got_ids)
-            if ws - gs:
-                key = 'element-lost'
-            elif len(got_ids) > len(want_ids):
-                key = 'element-duplicated'
-            elif sorted(got_ids) == sorted(want_ids):
-                key = 'elements-reordered'
+        if not isinstance(d, osc.Bundle):
+            acc.violation('C06/clump/datagram-is-not-a-bundle', winfo)
+            bad = True
+            continue
+        els = list(d.elements)
+        if via == 'sync':
+            if not els or not isinstance(els[-1], osc.Msg) or \
+                    els[-1].addr != '/sync' or len(els[-1].args) != 1:
+                acc.violation('C06/clump/sync-datagram-without-trailing-sync',
+                              dict(winfo, datagram_index=k))
+                bad = True
             else:
-                key = 'elements-differ'
-            acc.violation(f'C06/clump/{key}',
-                          {'case': i, 'via': via, 'family': family,
-                           'sent': len(want_ids), 'received': len(got_ids),
-                           'missing': sorted(ws - gs)[:10],
-                           'datagrams': len(dgrams)})
-            continue
-        acc.count('clump_elements_conserved', len(got_ids))
-        slugs = set()
-        for d, e in zip(got, exp_elems):
-            slugs.update(M.compare(d, e))
-        for s in sorted({M.mechanism(x) for x in slugs}):
-            acc.violation(f'C06/clump/element-altered/{s}',
-                          {'case': i, 'via': via, 'family': family})
-        if repr(elements) != before:
-            acc.count('clump_input_lists_mutated')
-        acc.case(h64(before), nontrivial=len(dgrams) > 1)
-        if acc.want_sample() and 1 < len(dgrams) < 6:
-            acc.sample({'case': i, 'via': via, 'family': family,
-                        'elements': len(elements),
-                        'datagram_sizes': [len(r) for r in dgrams]})
+                sid = els.pop().args[0]
+                if sid in sync_ids:
+                    acc.violation('C06/sync/sync-id-not-fresh',
+                                  dict(winfo, datagram_index=k, id=sid))
+                    bad = True
+                sync_ids.add(sid)
+        if not els:
+            acc.count('clump_empty_datagrams')
+        lo = len(got)
+        bounds.append(lo)
+        got.extend(els)
+        if len(raw) > M.UDP_MAX and via != 'bundle':
+            part = exp_elems[lo:lo + len(els)]
+            plists = original[lo:lo + len(els)]
+            cause, under = oversize_cause(cx, M, plists, part, len(raw))
+            if cause == 'element-prefix-not-counted' and len(dgrams) == 1 \
+                    and 4 * len(els) + under < len(raw) - M.UDP_MAX:
+                # nothing was split although the whole does not fit, and
+                # neither the element prefixes nor under-predicted
+                # element sizes can account for the excess
+                cause = 'bundle-not-split'
+            w = dict(winfo, datagram_index=k, bytes=len(raw),
+                     elements_in_datagram=len(els),
+                     first_elements=repr(plists[:3])[:300])
+            if cause == 'element-size-underpredicted':
+                # same defect as the size monitor's: same keys
+                causes = {}
+                for e in plists:
+                    for c, n in active_causes(cx, M, e, predict(cx, e)).items():
+                        causes[c] = causes.get(c, 0) + n
+                w['where'] = 'clumped datagram above 65507'
+                w['bytes_attributed'] = causes
+                for c in causes:
+                    acc.violation(f'C06/size-underpredicted/{c}', w)
+                if under > sum(causes.values()):
+                    acc.violation('C06/size-underpredicted/other', w)
+            else:
+                acc.violation(
+                    f'C06/clump/datagram-exceeds-udp-limit/{cause}', w)
+        if via != 'bundle':
+            acc.maxi('max_clump_datagram_bytes', len(raw))
+    if bad:
+        return False
+    # elements nobody gave: /sync messages left over from earlier calls
+    stale = [d for d in got if isinstance(d, osc.Msg) and d.addr == '/sync']
+    if stale:
+        acc.violation('C06/sync/stale-elements',
+                      dict(winfo, given_elements=len(original),
+                           received_elements=len(got),
+                           stale=[repr(d) for d in stale[:4]]))
+        return False
+    # conservation: every element exactly once, in order
+    want_ids = flat_ids(exp_elems)
+    got_ids = dec_ids(osc, got)
+    if got_ids != want_ids:
+        ws, gs = set(want_ids), set(got_ids)
+        if ws - gs:
+            key = 'element-lost'
+        elif len(got_ids) > len(want_ids):
+            key = 'element-duplicated'
+        elif sorted(got_ids) == sorted(want_ids):
+            key = 'order-across-datagrams'
+        else:
+            key = 'elements-differ'
+        first = next((n for n, (a, b) in enumerate(zip(got_ids, want_ids))
+                      if a != b), None)
+        acc.violation(f'C06/clump/{key}',
+                      dict(winfo, sent=len(want_ids), received=len(got_ids),
+                           missing=sorted(ws - gs)[:10], datagrams=len(dgrams),
+                           first_difference_at=first,
+                           ids_there=got_ids[max(0, (first or 0) - 2):
+                                             (first or 0) + 6],
+                           datagram_starts=bounds[:12]))
+        return False
+    acc.count('clump_elements_conserved', len(got_ids))
+    slugs = set()
+    for d, e in zip(got, exp_elems):
+        slugs.update(M.compare(d, e))
+    for s in sorted({M.mechanism(x) for x in slugs}):
+        acc.violation(f'C06/clump/element-altered/{s}', winfo)
+    if acc.want_sample() and 1 < len(dgrams) < 6:
+        acc.sample({'case': i, 'via': via, 'family': family,
+                    'elements': len(original),
+                    'datagram_sizes': [len(r) for r in dgrams]})
+    return not slugs
 
 
 def oversize_cause(cx, M, part_lists, part_exp, nbytes):
